@@ -165,10 +165,12 @@ class CEMIHandler:
         if isinstance(telegram.tpci, tpci.TDataGroup):
             self.xknx.telegrams.put_nowait(telegram)
             return
-        if (
-            isinstance(telegram.destination_address, IndividualAddress)
-            and telegram.destination_address != self.xknx.current_address
-        ):
+        if isinstance(telegram.destination_address, IndividualAddress):
+            if telegram.destination_address != self.xknx.current_address:
+                return
+        elif not isinstance(telegram.tpci, tpci.TDataBroadcast):
+            # group addressed, but not T_Data_Group - eg. T_Data_Tag_Group (LTE)
+            logger.debug("Ignoring unsupported group addressed telegram: %s", telegram)
             return
         self.xknx.management.process(telegram)
 
